@@ -52,7 +52,7 @@ CONTENTS = {
 CONTENTS['H'] = [[ev(i, 0, 5.5) for i in range(40000)], [ev(40000 + i, 0, 5.5) for i in range(30000)] + [ev(70000 + i, 3, 6.5) for i in range(300)], []]
 OBS = [ev(101, 0, 5.5), ev(102, 3, 6.5)]
 
-OPS = ['IT', 'EC', 'NC', 'ER', 'SC', 'MC', 'cN', 'cS', 'cM', 'cPL', 'cRM', 'cMLL']
+OPS = ['IT', 'EC', 'NC', 'ER', 'SC', 'MC', 'cN', 'cS', 'cM', 'cPL', 'cRM', 'cMLL', 'cRMlow']
 
 
 def region():
@@ -220,6 +220,10 @@ def apply_op(fc, op):
             return ['cPL', _test_obs(ce.pseudolikelihood_test(fc, obs, verbose=False))]
         if op == 'cRM':
             return ['cRM', _test_obs(ce.resampled_magnitude_test(fc, obs, seed=1))]
+        if op == 'cRMlow':
+            # the observed catalog has events, but none inside the forecast's magnitude range
+            low = fixtures.catalog([ev(201, 0, 3.0), ev(202, 3, 4.5)], region=region(), name='obs')
+            return ['cRMlow', _test_obs(ce.resampled_magnitude_test(fc, low, seed=1))]
         if op == 'cMLL':
             return ['cMLL', _test_obs(ce.MLL_magnitude_test(fc, obs, seed=1))]
     except Exception as e:
@@ -278,11 +282,11 @@ def judge_obs(case, hist, op, obs, fresh, ref, failures, counters):
         if obs[1] != want:
             fail('counts-differ-from-single-pass', f'get_event_counts() = {obs[1]} expected {want}')
     elif op == 'NC':
-        passed = any(h in ('IT', 'EC', 'ER', 'SC', 'MC', 'cN', 'cS', 'cM', 'cPL', 'cRM', 'cMLL') for h in hist)
+        passed = any(h in ('IT', 'EC', 'ER', 'SC', 'MC', 'cN', 'cS', 'cM', 'cPL', 'cRM', 'cMLL', 'cRMlow') for h in hist)
         announced = (J + case['hint']) if case.get('hint') else None
         if not (obs[1] == J or (obs[1] is None and not hist) or (not passed and obs[1] == announced)):
             fail('n_cat-wrong', f'n_cat = {obs[1]} expected {J}')
-        if hist and any(h in ('IT', 'EC', 'ER', 'SC', 'MC', 'cN', 'cS', 'cM', 'cPL', 'cRM', 'cMLL') for h in hist) and obs[1] != J:
+        if hist and any(h in ('IT', 'EC', 'ER', 'SC', 'MC', 'cN', 'cS', 'cM', 'cPL', 'cRM', 'cMLL', 'cRMlow') for h in hist) and obs[1] != J:
             fail('n_cat-wrong', f'n_cat = {obs[1]} after a complete pass, expected {J}')
     elif op == 'ER':
         want = ref_rates(ref)
